@@ -197,10 +197,13 @@ func parentMain(args []string) error {
 			flushSignals()
 			out.emit(pev{Ev: "ended"})
 		case "quit":
+			time.AfterFunc(2*time.Second, func() { os.Exit(0) })
 			endSession()
 			return nil
 		}
 	}
+	// the driver is gone (command pipe closed): never outlive it, even if Shutdown of the real code hangs
+	time.AfterFunc(2*time.Second, func() { os.Exit(0) })
 	endSession()
 	return nil
 }
